@@ -328,7 +328,17 @@ impl World {
 		let (pa, pb) = (pay(&mgr), pay(&shadow));
 		// Reading back implies a disconnection: a payment whose HTLCs were not yet committed is
 		// failed by it, so a pending payment may be gone; nothing may appear or change otherwise.
-		let appeared: Vec<&String> = pb.iter().filter(|x| !pa.contains(x)).collect();
+		// ChannelManager::read also takes preimages straight from the ChannelMonitors, which the live
+		// manager only learns at its next round of monitor events: pending -> fulfilled with the same
+		// payment id is the read-back copy being ahead, not a different object.
+		let ahead = |x: &String| -> bool {
+			if let Some(rest) = x.strip_prefix("fulfilled ") {
+				let id = rest.split(' ').next().unwrap_or("");
+				return pa.iter().any(|y| y.starts_with(&format!("pending {} ", id)));
+			}
+			false
+		};
+		let appeared: Vec<&String> = pb.iter().filter(|x| !pa.contains(x) && !ahead(x)).collect();
 		let lost: Vec<&String> = pa.iter().filter(|x| !pb.contains(x) && !x.starts_with("pending")).collect();
 		if !appeared.is_empty() || !lost.is_empty() {
 			self.violate(
